@@ -100,7 +100,9 @@ def render_arg(it, arg, spec=DEFAULT):
     d = arg.data
     kind, ref = d[0], d[1]; ty = d[2] if len(d) > 2 else None
     if isinstance(ref, DynRef) and (ty is None or ty.startswith('dyn ')): ty = ref.dyn_ty
-    return fmt_value(it, ref, ty, kind, spec)
+    if getattr(it, 'strict_debug', False): return fmt_value(it, ref, ty, kind, spec)
+    try: return fmt_value(it, ref, ty, kind, spec)
+    except Unsupported: return S('<?>')          # diagnostics only (never compared); strict mode keeps the exception
 
 # ------------------------------------------------------------------ padding
 def pad_str(chars, spec, default='l'):
@@ -138,7 +140,10 @@ def concretize_int(it, x):
     if it is None: raise Unsupported('to_string of symbolic number')
     if z3.is_bool(x): return 1 if truth(it, x) else 0
     n = x.size(); v = 0
-    if n > 16 and truth(it, z3.ULT(x, 1 << 16)): n = 16          # common case: small values
+    if n > 16:
+        # only values with a small feasible domain are enumerated (a feasibility probe, not a fork); wide domains stay unsupported
+        if it.ctx._check(z3.UGE(x, 1 << 16)): raise Unsupported('to_string of a symbolic number with a wide domain')
+        n = 16
     for b in range(n - 1, -1, -1):
         if truth(it, z3.Extract(b, b, x) == 1): v |= 1 << b
     return v
